@@ -10,7 +10,14 @@ class SameID:
     self._check_tags_of_previous_group_definition(previous)
     self._check_items_not_self()
     self._gfa = previous.gfa
-    self._initialize_references()
+    try:
+      self._initialize_references()
+    except:
+      # the line is refused: the lines it was already linked to forget it
+      self._remove_field_backreferences()
+      self._remove_field_references()
+      self._gfa = None
+      raise
     cur_items = self.get("items")
     self._substitute_virtual_line(previous)
     self._set_existing_field("items", self.get("items") + cur_items, 
